@@ -157,4 +157,56 @@ Proof.
   all: try solve [ apply RR; auto; congruence ].
 Qed.
 
+(* ---- a stored error is always followed by a wake-up message ---- *)
+Lemma In_upd_keep {A} (l : list A) i x y z :
+  nth_opt l i = Some x -> In z l -> z <> x -> In z (upd_nat l i y).
+Proof.
+  intros Hi Hz Hn. destruct (In_nth_opt _ _ Hz) as [j Hj].
+  destruct (Nat.eq_dec i j) as [->|Hne]; [congruence|]. eapply upd_nat_In_old; eauto.
+Qed.
+
+Lemma step_i3_wake1 c s t s' : Fx c -> I1 c s -> I3 c s -> step f c s t = Some s' ->
+  err s' <> None -> unsafe_pc (pc s') = true -> In MWake (ch s') \/ In WWake (ws s').
+Proof.
+  intros Hfx H1 H3 Hst. dfx Hfx. pose proof (i3_wake c s H3) as WK. pose proof (i1_rx c s H1) as RX.
+  step_split t Hst; pre; intros He Hu; try discriminate; pc_cases; try discriminate; try congruence.
+  (* coordinator steps that stay inside the unsafe region *)
+  all: try solve [ destruct (WK He eq_refl) as [X|X]; [rw_eqs; destruct X|right; assumption] ].
+  all: try solve [ apply WK; auto ].
+  (* worker steps *)
+  all: cbn [unsafe_pc] in *.
+  all: try solve [ destruct (WK He Hu) as [X|X]; [left; auto|right; eapply In_upd_keep; eauto; discriminate] ].
+  all: try solve [ destruct (WK He Hu) as [X|X];
+                   [left; apply in_app_iff; left; assumption|right; eapply In_upd_keep; eauto; discriminate] ].
+  (* WSetErr: the worker is now about to send the wake-up *)
+  all: try solve [ right; eapply upd_nat_In_new; eauto ].
+  all: try congruence.
+  (* WWake with a live receiver: the message is in the channel *)
+  all: try solve [ left; apply in_app_iff; right; left; reflexivity ].
+  (* WWake / WSend with a dead receiver: the coordinator is gone *)
+  all: try solve [ exfalso; specialize (RX ltac:(first [assumption|reflexivity])); rewrite RX in Hu; discriminate ].
+Qed.
+
+Lemma step_i3_wake234 c s t s' : Fx c -> ctl_ok (k_kind c) (pc s) (ph s) = true -> I3 c s ->
+  step f c s t = Some s' ->
+  (rwake s' = true -> errd s') /\ (In MWake (ch s') -> errd s') /\ (In WWake (ws s') -> errd s').
+Proof.
+  intros Hfx OK H3 Hst. pose proof Hst as Hst0.
+  pose proof (i3_rwake c s H3) as W2. pose proof (i3_chwake c s H3) as W3. pose proof (i3_wswake c s H3) as W4.
+  assert (ST : errd s -> errd s') by (intros E; eapply step_errd; eauto).
+  clear Hst0. dfx Hfx.
+  step_split t Hst; pre; (split; [|split]); intros X; try solve [ apply ST; auto ].
+  all: try solve [ apply ST; apply W3; rw_eqs; right; assumption ].
+  all: try solve [ apply ST; apply W3; left; reflexivity ].
+  all: try solve [ destruct X ].
+  all: try solve [ rw_eqs; destruct X ].
+  all: try solve [ apply wake_one_In in X; destruct X as [X|X]; [apply ST; auto|discriminate] ].
+  all: try solve [ apply wake_all_In in X; destruct X as [X|X]; [apply ST; auto|discriminate] ].
+  all: try solve [ apply in_app_iff in X; destruct X as [X|[X|[]]]; [apply ST; auto|discriminate] ].
+  all: try solve [ apply upd_nat_In in X; destruct X as [X|X]; [discriminate|apply ST; auto] ].
+  all: try solve [ apply ST; apply W4; eapply nth_opt_In; eauto ].
+  (* WSetErr *)
+  all: try solve [ left; unfold first_err; cbn; destruct (err s); discriminate ].
+Qed.
+
 End P.
